@@ -206,10 +206,10 @@ META = {
         "technique": "symbolic execution under a controlled thread scheduler (schedule = choice variable, data = z3 ints), linearizability decided by z3 against all sequential orders run on the real code",
     },
     "files": ["operon_ai/state/metabolism.py"],
-    "bounds": {"quick": "6 pairs of single operations on one or two shared stores, 2 threads, preemption bound 1, line granularity, values 0..64",
+    "bounds": {"quick": "6 pairs of single operations on one or two shared stores, 2 threads, preemption bound 1, line granularity, values 0..64 (metabolic-state update cut out); 3 pairs with the real _update_state, capacities 8/0/0/4, symbolic balances, each store's metabolic state part of the compared outcome",
                "thorough": "12 pairs with preemption bound 2; 3 threads x 1 op and 2+1 ops with bound 1"},
     "outside": ["atomicity of transfer_to as a whole: by design it is two lock-protected units (withdraw, then the peer's regenerate); sequential orders interleave those units", "more than P preemptions", "preemption inside a source line", "background regeneration thread", "on_state_change re-entrancy", "threads doing 3 operations each"],
-    "float_argument": "F-indep: the metabolic state computed from floats is not part of the compared outcome except through gating, which runs on exact rationals",
+    "float_argument": "F-cmp: in the state jobs the thresholds 0.1/0.3/0.9 are compared with exact rationals k/8 - (d/8)/2; none of those lies on a threshold's float neighbourhood except exact ties, which the rational and the float comparison decide alike for these denominators (path witnesses re-check every 19th path concretely)",
     "assumptions": ["stores start in state NORMAL with arbitrary balances (gtp<=max_gtp, nadh<=max_nadh)", "lock shims of the constructed kind; scheduler serialises threads"],
     "must_cover": [("operon_ai/state/metabolism.py", "other.regenerate(amount, energy_type)"),
                    ("operon_ai/state/metabolism.py", "self.atp -= cost")],
